@@ -1,5 +1,5 @@
 from mindsdb_sql.parser.ast.base import ASTNode
-from mindsdb_sql.parser.utils import indent
+from mindsdb_sql.parser.utils import indent, params_to_string
 
 
 class CreateKnowledgeBase(ASTNode):
@@ -68,7 +68,7 @@ class CreateKnowledgeBase(ASTNode):
 
         params = self.params.copy()
         if params:
-            using_ar += [f"{k}={repr(v)}" for k, v in params.items()]
+            using_ar.append(params_to_string(params))
         if using_ar:
             using_str = "USING " + ", ".join(using_ar)
         else:
